@@ -44,6 +44,7 @@ type barInfo struct {
 	exts      int
 	op        *Op
 	created   bool
+	whenFired bool
 	lateFills int // Fill calls since the done channel was closed (for a fault "at the k-th final frame")
 }
 
@@ -67,6 +68,8 @@ type run struct {
 	p        *mpb.Progress
 	cancel   context.CancelFunc
 	wcProto  map[string]*decor.WC
+	uwg      *sync.WaitGroup
+	uwgDone  map[int]bool
 	closing  bool // some Wait / Shutdown has passed its barrier and is cancelling the container
 	lsDone   bool // the refresh listener has passed its last gate and closes the done channel
 	manual   chan interface{}
@@ -354,10 +357,25 @@ func (d *probeDecor) slow() {
 
 type listenDecor struct{ *probeDecor }
 
+// a listener may ask its own bar for its final values
+func (d *probeDecor) askBar() Event {
+	e := Event{"ev": "onshutdown", "d": d.name, "b": d.bar, "asked": false}
+	d.r.mu.Lock()
+	bi := d.r.bars[d.bar]
+	d.r.mu.Unlock()
+	if bi != nil && bi.bar != nil && d.idx%2 == 0 {
+		e["asked"] = true
+		e["cur"] = bi.bar.Current()
+		e["running"] = bi.bar.IsRunning()
+		e["terminal"] = bi.bar.Completed() || bi.bar.Aborted()
+	}
+	return e
+}
+
 func (d listenDecor) OnShutdown() {
 	d.slow()
 	d.r.userGate("us:listen", d.name)
-	d.r.rec(Event{"ev": "onshutdown", "d": d.name, "b": d.bar})
+	d.r.rec(d.askBar())
 }
 
 type ewmaDecor struct{ *probeDecor }
@@ -371,7 +389,7 @@ type listenEwmaDecor struct{ *probeDecor }
 func (d listenEwmaDecor) OnShutdown() {
 	d.slow()
 	d.r.userGate("us:listen", d.name)
-	d.r.rec(Event{"ev": "onshutdown", "d": d.name, "b": d.bar})
+	d.r.rec(d.askBar())
 }
 func (d listenEwmaDecor) EwmaUpdate(n int64, dur time.Duration) {
 	d.r.rec(Event{"ev": "ewma", "d": d.name, "b": d.bar, "n": n, "dur": int64(dur)})
@@ -483,7 +501,8 @@ func (r *run) mkFiller(bi *barInfo) mpb.BarFiller {
 		if f := bi.op.Fault; f != nil && f.At < 0 && r.isDoneClosed() {
 			bi.lateFills++ // Fill calls since the done channel was closed
 		}
-		if f := bi.op.Fault; f != nil && f.Kind == "fill" && (bi.fills == f.At || (f.At < 0 && bi.lateFills == -f.At)) {
+		if f := bi.op.Fault; f != nil && f.Kind == "fill" && ((f.At > 0 && bi.fills == f.At) || (f.At < 0 && bi.lateFills == -f.At) || (f.When == "C" && s.Completed && !bi.whenFired)) {
+			bi.whenFired = true
 			r.rec(Event{"ev": "fault", "kind": "fill", "b": bi.name, "at": f.At})
 			return errFill
 		}
@@ -581,14 +600,32 @@ func (r *run) client(c int) {
 		if !dr {
 			<-g.rel
 		}
+		if ops[i].Op == "wait" {
+			r.workerDone(c) // a worker that waits for the container itself has finished its work
+		}
 		r.exec(c, i, &ops[i])
 		r.mu.Lock()
 		r.clPC[c] = i + 1
 		r.mu.Unlock()
 	}
+	r.workerDone(c)
 	r.mu.Lock()
 	r.clDone[c] = true
 	r.mu.Unlock()
+}
+
+// workerDone: with a user wait group (WithWaitGroup) every client but the first is a worker and calls Done once.
+func (r *run) workerDone(c int) {
+	if r.uwg == nil || c == 0 {
+		return
+	}
+	r.mu.Lock()
+	first := !r.uwgDone[c]
+	r.uwgDone[c] = true
+	r.mu.Unlock()
+	if first {
+		r.uwg.Done()
+	}
 }
 
 func (r *run) exec(c, i int, op *Op) {
@@ -620,6 +657,11 @@ func (r *run) exec(c, i int, op *Op) {
 		prio := 0
 		if op.Prio != nil {
 			prio = *op.Prio
+		}
+		inv["hasid"] = op.ID != nil
+		inv["id"] = 0
+		if op.ID != nil {
+			inv["id"] = *op.ID
 		}
 		inv["hasprio"] = op.Prio != nil
 		inv["prio"] = prio
@@ -674,6 +716,9 @@ func (r *run) exec(c, i int, op *Op) {
 		}
 		if op.Prio != nil {
 			opts = append(opts, mpb.BarPriority(*op.Prio))
+		}
+		if op.ID != nil {
+			opts = append(opts, mpb.BarID(*op.ID))
 		}
 		if op.Ext > 0 || (op.Fault != nil && op.Fault.Kind == "ext") {
 			opts = append(opts, mpb.BarExtender(r.mkExt(bi), op.ExtRv))
@@ -976,7 +1021,7 @@ func (r *run) scheduler(t *testing.T) (hang string) {
 		budget = 4000
 	}
 	tickw := sc.Sched.TickW
-	if tickw == 0 {
+	if tickw <= 0 {
 		tickw = 1
 	}
 	auto := sc.Cfg.Refresh == "auto"
@@ -1079,6 +1124,8 @@ func (r *run) scheduler(t *testing.T) (hang string) {
 				tw = 2 * tickw
 				if len(cands) == 0 {
 					tw = 1
+				} else if sc.Sched.TickW < 0 {
+					tw = 0 // time passes only when nothing else can move
 				}
 			}
 			if total+tw == 0 {
@@ -1198,6 +1245,12 @@ func RunScenario(t *testing.T, sc *Scenario) (events []Event, fatal string) {
 			opts := []mpb.ContainerOption{mpb.WithOutput(r.outW), mpb.WithDebugOutput(r.dbg), mpb.WithRefreshRate(refreshRate)}
 			if sc.Cfg.Q >= 0 {
 				opts = append(opts, mpb.WithQueueLen(sc.Cfg.Q))
+			}
+			if sc.Cfg.UWG && len(sc.Clients) > 1 {
+				r.uwg = &sync.WaitGroup{}
+				r.uwgDone = map[int]bool{}
+				r.uwg.Add(len(sc.Clients) - 1)
+				opts = append(opts, mpb.WithWaitGroup(r.uwg))
 			}
 			if sc.Cfg.Width > 0 {
 				opts = append(opts, mpb.WithWidth(sc.Cfg.Width))
